@@ -364,6 +364,28 @@ class Flow:
         self.env = saved
         return ("lambda", tuple(params), v)
 
+    def _apply(self, fv, args, kws, depth=0):
+        """value of calling the function value fv -- a ("lambda", params, body) or a phi of such (one definition per arm of an
+        if/elif chain) -- with these arguments: the body with the parameters replaced; None when fv is not a local function value"""
+        if depth > 6 or fv is None:
+            return None
+        if fv[0] in ("phi", "ifexp") and len(fv) == 4:
+            a, b = self._apply(fv[2], args, kws, depth + 1), self._apply(fv[3], args, kws, depth + 1)
+            return None if a is None or b is None else (fv[0], fv[1], a, b)
+        if fv[0] != "lambda":
+            return None
+        params = fv[1]
+        names = [p_[1] for p_ in params]
+        if len(args) > len(params) or any(k not in names for k, _ in kws):
+            return None
+        given = dict(zip(params, args))
+        for k, v_ in kws:
+            given[params[names.index(k)]] = v_
+        if len(given) != len(params):
+            return None
+        return simp(subst(fv[2], given))
+
+
     def e_NamedExpr(self, n):
         v = self.ev(n.value)
         self.bind(n.target, v, n)
@@ -439,6 +461,10 @@ class Flow:
                     out = ("phi", ("cmp", ("Eq",), (key, k)), inl, out)
                 if ok:
                     return out
+        if isinstance(f, ast.Name) and f.id in self.env and all(k != "**" for k, _ in kws) and not any(a[0] == "star" for a in args):
+            r = self._apply(self.env[f.id], args, kws)
+            if r is not None:
+                return r
         if isinstance(f, ast.Name) and self.func_resolver is not None and f.id not in self.env and self._depth < 2 and all(k != "**" for k, _ in kws):
             callee = self.func_resolver(f.id)
             if callee is not None and callee is not self.func:
@@ -1067,6 +1093,8 @@ def show(v, depth=0) -> str:
             return f"carried:{v[1]}"
         if k == "acc":
             return f"acc:{v[1]}"
+        if k == "closure":
+            return f"<function {v[1]}>"
     except Exception:
         pass
     return str(v)[:120]
@@ -1227,6 +1255,15 @@ def simp(v):
                 elts.append(("star", o))
         if elts is not None:
             return ("list", tuple(elts))
+    if k == "comp" and len(v[3]) == 1 and v[3][0][0] is not None:
+        # loop unswitching: a filter `a if c else b` whose test does not depend on the comprehension's variables selects one of
+        # two comprehensions:  [e for x in L if (a if c else b)]  ==  [e for x in L if a] if c else [e for x in L if b]
+        tg, it, ifs = v[3][0]
+        bound = {x for x in walk(tg) if isinstance(x, tuple) and x and x[0] == "bv"}
+        for i_, c_ in enumerate(ifs):
+            if c_[0] in ("phi", "ifexp") and len(c_) == 4 and not any(x in bound for x in walk(c_[1])):
+                arm = lambda w: simp(("comp", v[1], v[2], ((tg, it, tuple(ifs[:i_]) + (w,) + tuple(ifs[i_ + 1:])),)))
+                return ("phi", c_[1], arm(c_[2]), arm(c_[3]))
     if k == "sub":
         base, idx = v[1], v[2]
         if base[0] in ("list", "tuple") and idx[0] == "const" and isinstance(idx[1], int) \
